@@ -104,7 +104,7 @@ def check_C01(tier, seed, replay=None):
     cfg = F.RandCfg(depth=4, maxrules=3, safe_rep=False)
     groups += F.random_groups(seed, nrand, cfg, gi0=len(groups) + 1)
     inputs = F.all_inputs([F.A, F.B, F.UA], maxlen)
-    options = [opt(), opt(maxexpr=3000), opt(entry="-"), opt(debug=True), opt(via="reader"), opt(via="file")]
+    options = [opt(), opt(maxexpr=3000), opt(entry="-"), opt(debug=True), opt(via="reader"), opt(via="file"), opt(entry="No_such_rule")]
     allin = list(range(len(inputs)))
     run.keep_debug = True
 
@@ -115,6 +115,8 @@ def check_C01(tier, seed, replay=None):
             pl += [(ii, 3) for ii in allin[::3]]          # Debug(true) runs: the T2 traces
         if not g.maydiverge and g.gi % 5 == 1:
             pl += [(ii, 4) for ii in allin[::2]] + [(ii, 5) for ii in allin[::7]]      # through ParseReader and ParseFile
+        if g.gi % 7 == 2:
+            pl += [(ii, 6) for ii in allin[:3]]                                          # an Entrypoint that does not exist
         return pl
     div, tot = run.execute(groups, inputs, options, plan_for, flagsets, pack_size=100, noentry_oi=2)
     design_level(run, groups, inputs, options, lambda g: [1] if g.maydiverge else [0], 192 if tier == "quick" else 100000)
